@@ -30,9 +30,6 @@ CFG = Cfg(max_depth=3, theories={"bool", "int", "real", "bv", "arr", "uf", "str"
           quant_types=[BOOL, BV(1), INT], share=35, nsyms=2)
 
 
-GENERIC = "c14-generic-solver"
-
-
 def check_history(run, probe, history, probes, oob):
     from vf.checks import c15
     worldA = c15.World()
@@ -40,17 +37,6 @@ def check_history(run, probe, history, probes, oob):
     used = set()
     produced = []
     for call in history:
-        if call[0] == "!generic-solver":
-            from pysmt.logics import QF_UFLIRA
-            envA.factory.add_generic_solver(GENERIC, ["/opt/c14/solver", "-in"], [QF_UFLIRA])
-            run.cls("history-with-generic-solver")
-            # ... which is this environment's business only: an environment created afterwards does not know it
-            other = Environment()
-            known = [k for k, v in other.factory.preferences.items() if GENERIC in v]
-            if known or GENERIC in other.factory.all_solvers():
-                run.fail({"subcheck": "history:other-environment-affected", "service": "factory"}, {"probe": probe, "history": history, "probes": []},
-                         "after add_generic_solver(%r) in one environment, a NEW environment's factory lists it (preferences %s)" % (GENERIC, known))
-            continue
         if call[0] == "!script":
             # the environment's long-lived parser object has read another script before
             c15.parse_probe(worldA, call[1])
@@ -282,8 +268,6 @@ def gen_case(rnd):
                        "(declare-fun c14b () Bool)\n(declare-fun c14f (Int) Bool)\n(assert (and (> (ite c14b 1 2) 0) (c14f 3)))\n", None))
         probes.append(("parse-with-long-lived-parser",
                        "(set-logic QF_LRA)\n(declare-fun c14r () Real)\n(assert (< c14r (+ 1 2)))\n", None))
-    if g.pct(4):
-        history.insert(g.rnd.randrange(len(history) + 1), ("!generic-solver",))
     oob = [g.choice(OOB)] if g.pct(30) else []
     return probe, history, probes, oob
 
